@@ -46,7 +46,7 @@ void h_grow(void) {
 }
 
 /* C19/C17: file entry point against the in-memory one (asm_assemble_str by contract) */
-#define OS_GHOST_INIT g_inner_kind = 0; g_inner_calls = 0; g_inner_chunk = 0; g_inner_dest = 0; g_fault = 0; g_munmap_calls = 0; g_munmap_len = 0; g_munmap_ptr = 0; g_map_size = 0; g_inner_rc = -1; \
+#define OS_GHOST_INIT g_read_total = 0; g_inner_kind = 0; g_inner_calls = 0; g_inner_chunk = 0; g_inner_dest = 0; g_fault = 0; g_munmap_calls = 0; g_munmap_len = 0; g_munmap_ptr = 0; g_map_size = 0; g_inner_rc = -1; \
   g_fwrite_calls = 0; g_fwrite_ptr = 0; g_fwrite_size = 0; g_fwrite_n = 0; g_fwrite_ret = 0; g_fclose_ret = -2; g_fopen_ok = 0; g_mremap_ok = 0;
 #define FILE_COMMON OS_GHOST_INIT \
   struct assemblyline A; assemblyline_t al = &A; char *name; \
@@ -63,7 +63,7 @@ void h_grow(void) {
 #endif
 #define FILE_POST(rc) \
   CHECK(rc == EXIT_SUCCESS || rc == EXIT_FAILURE, "documented return values"); \
-  if (g_munmap_calls) CHECK(g_munmap_calls == 1 && g_munmap_len == g_file_len, "the mapping is released once, with the mapped length"); \
+  if (g_munmap_calls) CHECK(g_munmap_calls == 1 && g_munmap_len == g_map_size, "the mapping is released once, with the mapped length"); \
   if (rc == EXIT_FAILURE && !g_fault && g_inner_rc != EXIT_FAILURE) CHECK(0, "without an OS fault the file call fails only when the in-memory call on its contents fails (also for an empty file)"); \
   if (rc == EXIT_SUCCESS) REACH("file success"); else REACH("file failure");
 void h_assemble_file(void) { FILE_COMMON
